@@ -204,9 +204,11 @@ namespace xsimd
                 //
                 // https://docs.kernel.org/admin-guide/hw-vuln/gather_data_sampling.html
 
+                // Without OSXSAVE the OS only preserves the legacy SSE state (FXSAVE):
+                // nothing that uses the YMM/ZMM/opmask registers can be enabled.
                 unsigned sse_state_os_enabled = 1;
-                unsigned avx_state_os_enabled = 1;
-                unsigned avx512_state_os_enabled = 1;
+                unsigned avx_state_os_enabled = 0;
+                unsigned avx512_state_os_enabled = 0;
 
                 // OSXSAVE: A value of 1 indicates that the OS has set CR4.OSXSAVE[bit
                 // 18] to enable XSETBV/XGETBV instructions to access XCR0 and
@@ -228,7 +230,8 @@ namespace xsimd
                 ssse3 = regs1[2] >> 9 & sse_state_os_enabled;
                 sse4_1 = regs1[2] >> 19 & sse_state_os_enabled;
                 sse4_2 = regs1[2] >> 20 & sse_state_os_enabled;
-                fma3_sse42 = regs1[2] >> 12 & sse_state_os_enabled;
+                // FMA3 is VEX-encoded: it needs the AVX state even on 128-bit registers
+                fma3_sse42 = regs1[2] >> 12 & avx_state_os_enabled;
 
                 avx = regs1[2] >> 28 & avx_state_os_enabled;
                 fma3_avx = avx && fma3_sse42;
